@@ -22,6 +22,19 @@ package main
 //   bytelits   func F: the string literals converted with []byte("…")                  -> List String
 //   clireg     package: (command name, number of arguments) of every RegisterCLI call whose name is
 //              a string literal, sorted by name                                        -> List (String × Nat)
+//   nodeeffects func F (follow-up wp-c03b): everything by which F can change a firmware node, in source order:
+//              "write <target>"  every assignment / ++ / -- whose target reaches a node (as nodewrites),
+//              "append <arg0>"   every append(x, …) whose first argument is rooted in a node (append
+//                                writes into the spare capacity of the node's slice),
+//              "copy <dst>"      every copy(dst, …) whose destination is rooted in a node,
+//              "delete <map>"    every delete(m, …) on a node-rooted map,
+//              "addr <expr>"     every &x of a node-rooted location that is not a call argument's
+//                                receiver (a pointer into a node escapes)               -> List String
+//   nodeptrcalls func F: the sorted set of method names M such that F calls x.M(…) with x rooted in a node
+//              and M is declared in pkg/uefi with a POINTER receiver (for any type)    -> List String
+//   nodepasses func F: the sorted set of callees (normalised) of plain / package-qualified / method calls
+//              that receive a node itself (the bare identifier, possibly with & or *) as an argument
+//                                                                                        -> List String
 
 import (
 	"fmt"
@@ -204,6 +217,8 @@ func normExpr(p *pkgInfo, role map[string]string, e ast.Expr) (text string, root
 		case *ast.IndexExpr:
 			depth++
 			return rec(x.X) + "[·]"
+		case *ast.SliceExpr:
+			return rec(x.X) + "[:]"
 		case *ast.StarExpr:
 			depth++
 			return "*" + rec(x.X)
@@ -212,8 +227,15 @@ func normExpr(p *pkgInfo, role map[string]string, e ast.Expr) (text string, root
 		case *ast.TypeAssertExpr:
 			return rec(x.X) + ".(T)"
 		case *ast.CallExpr:
+			if id, ok := x.Fun.(*ast.Ident); ok && (id.Name == "make" || id.Name == "new") {
+				root = "fresh"
+				return id.Name + "()"
+			}
 			root = "call"
 			return rec(x.Fun) + "()"
+		case *ast.CompositeLit:
+			root = "fresh" // a new value, not (part of) a firmware node
+			return "lit"
 		}
 		root = "expr"
 		return exprText(p.fset, e)
@@ -257,6 +279,331 @@ func collectWrites(p *pkgInfo, fd *ast.FuncDecl, onlyNode bool) []string {
 		return true
 	})
 	return out
+}
+
+// ptrMethodsOfUefi: names of the methods pkg/uefi declares with a pointer receiver.
+func ptrMethodsOfUefi() (map[string]bool, error) {
+	up, err := loadPkg("pkg/uefi")
+	if err != nil {
+		return nil, err
+	}
+	out := map[string]bool{}
+	for _, f := range up.files {
+		for _, d := range f.Decls {
+			fd, ok := d.(*ast.FuncDecl)
+			if !ok || fd.Recv == nil || len(fd.Recv.List) != 1 {
+				continue
+			}
+			if _, ok := fd.Recv.List[0].Type.(*ast.StarExpr); ok {
+				out[fd.Name.Name] = true
+			}
+		}
+	}
+	return out, nil
+}
+
+func nodeRooted(root string, depth int) bool {
+	return root == "node" || (root == "recv" && depth > 1)
+}
+
+// collectEffects: see the kind `nodeeffects` above.
+func collectEffects(p *pkgInfo, fd *ast.FuncDecl, recvIsNode bool) []string {
+	role := roles(fd)
+	if recvIsNode {
+		for k, v := range role {
+			if v == "recv" {
+				role[k] = "node"
+			}
+		}
+	}
+	var out []string
+	ast.Inspect(fd.Body, func(n ast.Node) bool {
+		switch x := n.(type) {
+		case *ast.AssignStmt:
+			if x.Tok != token.DEFINE {
+				for _, l := range x.Lhs {
+					switch l.(type) {
+					case *ast.SelectorExpr, *ast.IndexExpr, *ast.StarExpr:
+						text, root, depth := normExpr(p, role, l)
+						if nodeRooted(root, depth) || root == "call" || root == "expr" {
+							out = append(out, "write "+text)
+						}
+					}
+				}
+			}
+		case *ast.IncDecStmt:
+			switch x.X.(type) {
+			case *ast.SelectorExpr, *ast.IndexExpr, *ast.StarExpr:
+				text, root, depth := normExpr(p, role, x.X)
+				if nodeRooted(root, depth) || root == "call" || root == "expr" {
+					out = append(out, "write "+text)
+				}
+			}
+		case *ast.CallExpr:
+			if id, ok := x.Fun.(*ast.Ident); ok && len(x.Args) > 0 {
+				if _, shadow := role[id.Name]; !shadow {
+					switch id.Name {
+					case "append", "copy", "delete", "clear":
+						text, root, depth := normExpr(p, role, x.Args[0])
+						if nodeRooted(root, depth) || root == "call" || root == "expr" {
+							out = append(out, id.Name+" "+text)
+						}
+					}
+				}
+			}
+		case *ast.UnaryExpr:
+			if x.Op == token.AND {
+				switch x.X.(type) {
+				case *ast.SelectorExpr, *ast.IndexExpr:
+					text, root, depth := normExpr(p, role, x.X)
+					if nodeRooted(root, depth) {
+						out = append(out, "addr "+text)
+					}
+				}
+			}
+		}
+		return true
+	})
+	return out
+}
+
+func sortedSet(m map[string]bool) []string {
+	var out []string
+	for k := range m {
+		out = append(out, k)
+	}
+	sort.Strings(out)
+	return out
+}
+
+// collectPtrCalls: see the kind `nodeptrcalls` above.
+func collectPtrCalls(p *pkgInfo, fd *ast.FuncDecl, ptr map[string]bool, recvIsNode bool) []string {
+	role := roles(fd)
+	if recvIsNode {
+		for k, v := range role {
+			if v == "recv" {
+				role[k] = "node"
+			}
+		}
+	}
+	set := map[string]bool{}
+	ast.Inspect(fd.Body, func(n ast.Node) bool {
+		c, ok := n.(*ast.CallExpr)
+		if !ok {
+			return true
+		}
+		sel, ok := c.Fun.(*ast.SelectorExpr)
+		if !ok || !ptr[sel.Sel.Name] {
+			return true
+		}
+		_, root, depth := normExpr(p, role, sel.X)
+		if nodeRooted(root, depth) || root == "call" {
+			set[sel.Sel.Name] = true
+		}
+		return true
+	})
+	return sortedSet(set)
+}
+
+// collectPasses: see the kind `nodepasses` above.
+func collectPasses(p *pkgInfo, fd *ast.FuncDecl) []string {
+	role := roles(fd)
+	set := map[string]bool{}
+	bare := func(e ast.Expr) bool {
+		for {
+			switch x := e.(type) {
+			case *ast.ParenExpr:
+				e = x.X
+			case *ast.StarExpr:
+				e = x.X
+			case *ast.UnaryExpr:
+				if x.Op != token.AND {
+					return false
+				}
+				e = x.X
+			case *ast.Ident:
+				return role[x.Name] == "node"
+			default:
+				return false
+			}
+		}
+	}
+	ast.Inspect(fd.Body, func(n ast.Node) bool {
+		c, ok := n.(*ast.CallExpr)
+		if !ok {
+			return true
+		}
+		for _, a := range c.Args {
+			if bare(a) {
+				t, _, _ := normExpr(p, role, c.Fun)
+				set[t] = true
+				break
+			}
+		}
+		return true
+	})
+	return sortedSet(set)
+}
+
+func init() {
+	ef := func(kind string, collect func(p *pkgInfo, fd *ast.FuncDecl) ([]string, error)) {
+		extraKinds[kind] = func(em *emitter, p *pkgInfo, it Item) {
+			fd, ok := p.funcs[it.Name]
+			if !ok || fd.Body == nil {
+				fmt.Fprintf(&em.b, "-- EXTRACTION FAILED: function not found\ndef %s_%s : List String := [\"<missing>\"]\n\n", kind, leanName(it.Name))
+				em.failed = append(em.failed, it.Kind+":"+it.Name+" (function not found)")
+				return
+			}
+			xs, err := collect(p, fd)
+			if err != nil {
+				em.failed = append(em.failed, it.Kind+":"+it.Name+" ("+err.Error()+")")
+			}
+			fmt.Fprintf(&em.b, "def %s_%s : List String := %s\n\n", kind, leanName(it.Name), strList(xs))
+		}
+	}
+	ef("nodeeffects", func(p *pkgInfo, fd *ast.FuncDecl) ([]string, error) { return collectEffects(p, fd, false), nil })
+	ef("nodeptrcalls", func(p *pkgInfo, fd *ast.FuncDecl) ([]string, error) {
+		ptr, err := ptrMethodsOfUefi()
+		if err != nil {
+			return nil, err
+		}
+		return collectPtrCalls(p, fd, ptr, false), nil
+	})
+	ef("nodepasses", func(p *pkgInfo, fd *ast.FuncDecl) ([]string, error) { return collectPasses(p, fd), nil })
+	declName := func(fd *ast.FuncDecl) string {
+		name := fd.Name.Name
+		if fd.Recv != nil && len(fd.Recv.List) == 1 {
+			t := fd.Recv.List[0].Type
+			if s, ok := t.(*ast.StarExpr); ok {
+				t = s.X
+			}
+			if id, ok := t.(*ast.Ident); ok {
+				name = id.Name + "." + name
+			}
+		}
+		return name
+	}
+	pairList := func(ps [][2]string) string {
+		if len(ps) == 0 {
+			return "[]"
+		}
+		var ss []string
+		for _, p := range ps {
+			ss = append(ss, "("+leanStr(p[0])+", "+p[1]+")")
+		}
+		return "[\n  " + strings.Join(ss, ",\n  ") + "]"
+	}
+	// roinventory: EVERY function declared in the files of the eight read-only commands (Arg = file
+	// names), so that a helper added later is inventoried too
+	extraKinds["roinventory"] = func(em *emitter, p *pkgInfo, it Item) {
+		want := map[string]bool{}
+		for _, n := range strings.Split(it.Arg, ",") {
+			want[n] = true
+		}
+		ptr, err := ptrMethodsOfUefi()
+		if err != nil {
+			em.failed = append(em.failed, "roinventory ("+err.Error()+")")
+		}
+		var fds []*ast.FuncDecl
+		for _, f := range p.files {
+			base := p.fset.Position(f.Pos()).Filename
+			if i := strings.LastIndex(base, "/"); i >= 0 {
+				base = base[i+1:]
+			}
+			if !want[base] {
+				continue
+			}
+			delete(want, base)
+			for _, d := range f.Decls {
+				if fd, ok := d.(*ast.FuncDecl); ok && fd.Body != nil && fd.Name.Name != "init" {
+					fds = append(fds, fd)
+				}
+			}
+		}
+		for n := range want {
+			em.failed = append(em.failed, "roinventory (file "+n+" not found)")
+		}
+		sort.Slice(fds, func(i, j int) bool { return declName(fds[i]) < declName(fds[j]) })
+		var eff [][2]string
+		calls, passes := map[string]bool{}, map[string]bool{}
+		declared := map[string]bool{} // functions and methods of these files: inventoried themselves
+		for _, fd := range fds {
+			declared[fd.Name.Name] = true
+		}
+		for _, fd := range fds {
+			eff = append(eff, [2]string{declName(fd), strings.ReplaceAll(strList(collectEffects(p, fd, false)), "\n", "")})
+			for _, c := range collectPtrCalls(p, fd, ptr, false) {
+				calls[c] = true
+			}
+			for _, c := range collectPasses(p, fd) {
+				last := c
+				if i := strings.LastIndex(c, "."); i >= 0 {
+					last = c[i+1:]
+				}
+				if !declared[last] {
+					passes[c] = true
+				}
+			}
+		}
+		if len(fds) == 0 {
+			em.failed = append(em.failed, "roinventory (no function found)")
+		}
+		fmt.Fprintf(&em.b, "def roeffects : List (String × List String) := %s\n\n", pairList(eff))
+		fmt.Fprintf(&em.b, "def roptrcalls : List String := %s\n\n", strList(sortedSet(calls)))
+		fmt.Fprintf(&em.b, "def ropasses : List String := %s\n\n", strList(sortedSet(passes)))
+	}
+	// uefimethods: every method of pkg/uefi whose name is in Arg, with what it does to its RECEIVER
+	extraKinds["uefimethods"] = func(em *emitter, p *pkgInfo, it Item) {
+		want := map[string]bool{}
+		for _, n := range strings.Split(it.Arg, ",") {
+			want[n] = true
+		}
+		var fds []*ast.FuncDecl
+		for _, f := range p.files {
+			for _, d := range f.Decls {
+				if fd, ok := d.(*ast.FuncDecl); ok && fd.Body != nil && fd.Recv != nil && want[fd.Name.Name] {
+					fds = append(fds, fd)
+				}
+			}
+		}
+		sort.Slice(fds, func(i, j int) bool { return declName(fds[i]) < declName(fds[j]) })
+		ptr, err := ptrMethodsOfUefi()
+		if err != nil {
+			em.failed = append(em.failed, "uefimethods ("+err.Error()+")")
+		}
+		var eff [][2]string
+		seen := map[string]bool{}
+		for _, fd := range fds {
+			seen[fd.Name.Name] = true
+			xs := collectEffects(p, fd, true)
+			// pointer-receiver methods of the package called on the receiver (or on what hangs below it)
+			for _, c := range collectPtrCalls(p, fd, ptr, true) {
+				xs = append(xs, "call "+c)
+			}
+			eff = append(eff, [2]string{declName(fd), strings.ReplaceAll(strList(xs), "\n", "")})
+		}
+		for n := range want {
+			if !seen[n] {
+				em.failed = append(em.failed, "uefimethods (no method "+n+" in pkg/uefi)")
+			}
+		}
+		fmt.Fprintf(&em.b, "def %s : List (String × List String) := %s\n\n", it.Name, pairList(eff))
+	}
+
+	var items []Item
+	items = append(items, Item{Kind: "roinventory", Name: "roinventory",
+		Arg: "find.go,json.go,table.go,count.go,validate.go,cat.go,dump.go,comment.go"})
+	// positive controls: the same extraction on visitors that do change nodes
+	for _, fn := range []string{"Flatten.Run", "ReplacePE32.Visit", "Remove.Visit", "Assemble.Visit"} {
+		items = append(items, Item{Kind: "nodeeffects", Name: fn}, Item{Kind: "nodeptrcalls", Name: fn})
+	}
+	specs = append(specs, Spec{Area: "UefiEditRO", Pkg: "pkg/visitors", Items: items})
+	// the pkg/uefi methods the read-only commands call on nodes: what they do to their receiver
+	specs = append(specs, Spec{Area: "UefiEditROMethods", Pkg: "pkg/uefi", Items: []Item{
+		{Kind: "uefimethods", Name: "methodeffects",
+			Arg: "Apply,ApplyChildren,BaseOffset,Buf,ChecksumHeader,EndOffset,FindSignature,FirstFV,FlashRegion,GetErasePolarity,HeaderLen,IsValid,String,Type,Valid,ValidRegions"},
+		{Kind: "uefimethods", Name: "controleffects", Arg: "SetBuf,SetSize,GenSecHeader"}, // positive control
+	}})
 }
 
 func init() {
